@@ -50,7 +50,10 @@ Handle(e) ==
     [] e.ev = "ret"  -> /\ e.err = ""
                         /\ phase' = IF e.call = "Stop" THEN "stopped" ELSE "running"
                         /\ UNCHANGED <<skip, base, live>>
-    [] e.ev = "obs"  -> /\ (skip \/ ObsOK(e)) /\ UNCHANGED <<phase, skip>>
+    \* after a step of the script that could not be realised the observations in between are not judged (the schedule
+    \* they belong to did not happen), but the ones taken after the wind-down are: whatever happened, after Stop the
+    \* ports are free, the clients closed, the registry empty and no goroutine left
+    [] e.ev = "obs"  -> /\ ((skip /\ ~(e.kind \in {"final", "client"} \/ (e.kind = "bind" /\ e.where = "final"))) \/ ObsOK(e)) /\ UNCHANGED <<phase, skip>>
                         /\ base' = IF e.kind = "baseline" THEN [goroutines |-> e.goroutines, fds |-> e.fds, conns |-> e.conns] ELSE base
                         /\ UNCHANGED live
     [] e.ev = "infeasible" -> skip' = TRUE /\ UNCHANGED <<phase, base, live>>
